@@ -246,7 +246,7 @@ func (fr *Frame) frameForKey(st *State, k string, allowed map[string][]string, a
 	}
 	top0 := fr.entry.heap.get(g, g.topKey())
 	r := g.fresh("fr")
-	conds := []string{"(<= " + r + " " + top0 + ")", "(> " + r + " 0)"} // reference 0 is nil: no object lives there
+	conds := []string{"(<= " + r + " " + top0 + ")", "(not (= " + r + " 0))"} // reference 0 is nil: no object lives there
 	for _, a := range allowed[k] {
 		conds = append(conds, "(not (= "+r+" "+a+"))")
 	}
